@@ -10,14 +10,16 @@ LISTS = "concrete lists: k[], ''[e'=e'], e'[a=2,a=1], k[b=1,''=''], k[a=1,a=1,b=
 
 PLAN = {
     "property": "C03",
-    "level": "model_checking",
+    "level": "proof",
     "manifest": {
-        "technique": "Kani/CBMC bounded model checking of the real Key::{eq,cmp,hash,get_hash,clone,constructors} (label count <= 3 and = 8, label/name content from a 5-entry table incl. repeated names, repeated labels, empty and non-ASCII strings) + rely/guarantee stubs of the std atomics for the get_hash() memo",
-        "text": "On the real code compiled by Kani: (1) a == b <=> a.cmp(b) == Equal, symmetry/duality, reflexivity, transitivity and antisymmetry on triples, a == b => identical sequence of Hasher::write* calls (recording hasher), label-order independence for pairwise distinct names -- all for keys whose labels are chosen by symbolic indices from a small table, label count <= 2 (quick) / = 3 (thorough); for 8 labels (the Vec arms) only three concrete key pairs; (2) construction-path independence: each of 11 construction paths (from_parts with owned / Arc strings, from_static_labels, from_name + with_extra_labels, split with_extra_labels, clone before/after memoisation, From<(N,L)>, IntoLabels for Iter, into_parts round trip, with_extra_labels(empty)) yields byte-identical name and label list, a memo that satisfies hashed => hash == H(name, labels), and (thorough) ==/cmp/Hash agreement with the all-static key, on a fixed set of concrete label lists; (3) get_hash() under arbitrary interference by other threads running the same first-use code returns the deterministic hash, publishes hash before hashed, and a racing Key::clone never carries hashed == true with a stale hash (loop-free => all SC interleavings).  Everything decisive for (1)-(2) is bounded => model_checking, not proof.  KNOWN RESULT: obligation c03_eq_iff_cmp fails on the unmodified tree (2 labels with the same name: eq is multiset equality, cmp stable-sorts by label name only); see proposed_fix.diff.",
+        "technique": "Verus (z3), unbounded, on <Key as PartialEq>::eq, <Key as Ord>::cmp and key_hasher_impl extracted verbatim and proved against ONE canonical label order (any number of labels, any strings; slice::sort_by_key and derive(Ord/Hash) of Label as ASSUMED contracts), with `equal <=> compares Equal` and `equal => same hasher stream` as lemmas over those contracts; plus Kani/CBMC bounded model checking of the real Key::{eq,cmp,hash,get_hash,clone,constructors} (label count <= 3 and = 8, label/name content from a 5-entry table incl. repeated names, repeated labels, empty and non-ASCII strings) + rely/guarantee stubs of the std atomics for the get_hash() memo",
+        "text": "PROVED (Verus, all label counts and contents): eq(a,b) == (name, canon(labels)) equal; cmp(a,b) == lexicographic comparison of (name, len, canon(labels)); key_hasher_impl feeds the hasher name, len, canon(labels) -- with canon = the pair ordered by whole label for 2 labels and the sort_by_key visiting order otherwise; hence a == b <=> cmp == Equal, and a == b => identical hasher input. BOUNDED (Kani), on the real code compiled by Kani: (1) a == b <=> a.cmp(b) == Equal, symmetry/duality, reflexivity, transitivity and antisymmetry on triples, a == b => identical sequence of Hasher::write* calls (recording hasher), label-order independence for pairwise distinct names -- all for keys whose labels are chosen by symbolic indices from a small table, label count <= 2 (quick) / = 3 (thorough); for 8 labels (the Vec arms) only three concrete key pairs; (2) construction-path independence: each of 11 construction paths (from_parts with owned / Arc strings, from_static_labels, from_name + with_extra_labels, split with_extra_labels, clone before/after memoisation, From<(N,L)>, IntoLabels for Iter, into_parts round trip, with_extra_labels(empty)) yields byte-identical name and label list, a memo that satisfies hashed => hash == H(name, labels), and (thorough) ==/cmp/Hash agreement with the all-static key, on a fixed set of concrete label lists; (3) get_hash() under arbitrary interference by other threads running the same first-use code returns the deterministic hash, publishes hash before hashed, and a racing Key::clone never carries hashed == true with a stale hash (loop-free => all SC interleavings).  Construction paths, the get_hash memo and order axioms on triples are bounded / rely-guarantee and are listed separately, not counted as proved. Defect found and fixed: 2 labels with the same name compared unequal-but-== (c03_eq_iff_cmp, replayed; /repo 5a9feff).",
         "note": "Bounds: label count <= 3 symbolic content; exactly 8 labels only as three concrete pairs; 5-entry label table, 3 key names, strings <= 2 bytes; triples only for exactly 1 or 2 labels. AHash itself is executed only on concrete static keys (c03_get_hash_real); elsewhere the hasher is swapped for a recorder (key_hasher_impl is generic in the hasher). Path harnesses use concrete label content (the heap-backed Vec<Label> paths exceed CBMC's memory with symbolic content); that eq/cmp/hash depend on content only follows from Cow's fields being private to cow.rs plus property C14. SC atomics assumed; Hashable for Key (metrics-util) is checked on one concrete key (thorough tier).",
     },
-    "min_obligations": {"quick": 2, "thorough": 2},
+    "min_obligations": {"quick": 7, "thorough": 7},
     "assumptions": [
+        "Verus template: slice::sort_by_key on the identity index list yields a permutation that is a function of the label list (R33 shims); derive(PartialEq, Ord) of Label is a total order consistent with equality (three broadcast axioms); derive(Hash)/str/usize hashing writes a prefix-free function of the value (token model); tuple `(&name, len).cmp(..)` is lexicographic (R33 shim); Cow<[Label]> derefs to its content (C14)",
+        "Verus template: transitivity / antisymmetry of the resulting key order is not proved there (bounded triples in Kani only)",
         "bounded: " + T + "; label count <= 2 (quick), = 3 (thorough); 8 labels: three concrete key pairs only (one pair costs CBMC ~3 min / 5 GB); nothing is claimed for other label counts or other strings",
         "Hash output is observed as the exact sequence of Hasher::write/write_u8/write_usize calls made into a recording hasher; equal sequences give equal output for every deterministic Hasher (KeyHasher::default() = AHasher with fixed keys, default-features = false)",
         STUB + " in the c03_paths_* harnesses (AHash on symbolic or heap data exceeds 12 GB in CBMC); the real AHash is run only on concrete static keys in c03_get_hash_real",
@@ -25,6 +27,9 @@ PLAN = {
         "get_hash memo: sequentially consistent atomics; other threads execute only Key::get_hash / Key::clone on the shared key (the only code that touches the two atomics); generate_key_hash is a deterministic function of the immutable (name, labels) -- modelled as an arbitrary constant h, incl. h == 0",
         "Hashable for Key (metrics-util/src/common.rs): checked on one concrete key in the thorough tier (c03_hashable); for other keys by inspection (the body is `self.get_hash()`)",
         "panic = failure; CBMC pointer checks are on but memory safety of Cow is property C14's subject",
+    ],
+    "verus": [
+        {"template": "order.verus.rs", "tier": "quick", "rlimit": 40, "min_functions": 5},
     ],
     "kani": [{
         "crate": "metrics",
